@@ -1123,6 +1123,36 @@ def byte_predicate_true_set(d, is_subject):
     return out
 
 
+def eval_closure_at(ctx, cpath, value, ty="usize", param=2):
+    """the value a loop-free closure returns when its argument (parameter `param`) is the constant
+    `value`: every branch of the body is decided by folding its test at that value (nothing is
+    run), the body restricted to the chosen arms is evaluated again, and its result folded.
+    None when a test does not fold."""
+    from symex import fold_consts
+    import cfg as _cfg
+    fb = ctx.fb
+    base = ctx.flat.run(cpath)
+    if base is None or _cfg.back_edges(base.body):
+        return None
+
+    def at(t):
+        return fold_consts(map_term(strip(t), lambda x: ("int", value, ty) if x == ("param", param) else None))
+
+    keep = {}
+    for bb, info in base.term_info.items():
+        if info.get("k") != "switch":
+            continue
+        d = at(info["discr"])
+        if d[0] != "int":
+            return None
+        keep[bb] = dict(info["targets"]).get(d[1], info["otherwise"])
+    vn = fb.pruned(cpath, "at%s" % value, keep) if keep else cpath
+    vse = ctx.flat.run(vn) if vn else None
+    if vse is None or any(i.get("k") == "switch" for i in vse.term_info.values()):
+        return None
+    return at(vse.ret)
+
+
 def strip_int_conversions(t):
     """the integer under value-preserving-or-panicking conversions: `x as uN`,
     `uN::try_from(x).unwrap() / .expect(..)`, `uN::from(x)` / `x.into()` between integers.
